@@ -41,6 +41,7 @@ func implString(v interface{}) string {
 			if i, ok := x.Int64(); ok {
 				return strconv.FormatInt(i, 10)
 			}
+			return x.Int(nil).String() // beyond int64: all its digits
 		}
 		return "num:" + x.String()
 	case float64:
@@ -336,7 +337,10 @@ func nameNode(nm string) *MNode {
 
 func (g *mgen) leaf(want int) (*MNode, MV) {
 	if want == wAny {
-		switch g.s.Intn(7) {
+		switch g.s.Intn(8) {
+		case 7: // a 43-digit integer: more than any fixed-precision context keeps
+			v := MV{K: mkBig, S: []string{"1234567890123456789012345678901234567890123", "9999999999999999999999999999999999999999999991"}[g.s.Intn(2)]}
+			return lit(v), v
 		case 0:
 			return lit(mNull()), mNull()
 		case 1: // possibly unset: null
@@ -414,6 +418,20 @@ func (g *mgen) build(want int, d int) (*MNode, MV) {
 			return a, v
 		}
 		return &MNode{Op: nCall, Name: "rec", Kids: []*MNode{a}}, v
+	case choice == 4 && want == wNum && g.s.Intn(5) == 0: // a builtin: needs no data map, arguments left to right
+		a, av := g.build(wNum, d+1)
+		if g.s.Bool(1, 2) {
+			if av.N < 0 {
+				av.N = -av.N
+			}
+			return &MNode{Op: nCall, Name: "abs", Kids: []*MNode{a}}, av
+		}
+		b, bv := g.build(wNum, d+1)
+		best := av
+		if bv.N > av.N {
+			best = bv
+		}
+		return &MNode{Op: nCall, Name: "max", Kids: []*MNode{a, b}}, best
 	case choice == 4 && want == wNum:
 		if g.s.Intn(4) == 0 { // unary minus of a small integer
 			a, av := g.build(wNum, d+1)
